@@ -27,7 +27,7 @@ def gen_token(rng):
     return tok
 
 
-LEAVES = ['role:admin', 'role:member', 'role:r0', 'is_admin:True', 'user_id:%(user_id)s', 'project_id:%(project_id)s',
+LEAVES = ['domain_id:%(project_id)s', 'project_id:%(nested.after)s', 'domain_id:%(nested.after)s', 'role:admin', 'role:member', 'role:r0', 'is_admin:True', 'user_id:%(user_id)s', 'project_id:%(project_id)s',
           'system_scope:all', 'system:all', 'system.all:True', 'user.id:u1', 'project.id:%(project_id)s', 'domain_id:d1',
           'rule:helper', 'rule:default_like', 'rule:undefined_one', "'a':%(custom.key)s", 'roles:admin', '@', '!',
           'user_id:%(nested.after)s', 'user_id:%(nested.a.b)s', 'user_id:%(custom.owner)s', 'user_id:%(last)s',
@@ -132,6 +132,10 @@ def run(run, binfo):
                            'user_id': rng.choice(['u1', 'zz']), 'project_id': rng.choice(['p1', 'p2']),
                            'nested': {'a': {'b': rng.choice(['u1', 'u2'])}, 'after': rng.choice(['u1', 'u2'])},
                            'last': 'u1'}
+            if rng.random() < 0.35:
+                # null in the target is the text "None"; an attribute the token does not carry is simply missing
+                target_json['project_id'] = None
+                target_json['nested']['after'] = None
         elif rng.random() < 0.25:
             # a target file that is given but flattens to nothing is still THE target (not the caller's own ids)
             target_json = rng.choice([{}, {'target': {}}, {'a': {}, 'b': {'c': {}}}, {'custom': {'deep': {}}}])
